@@ -142,6 +142,59 @@ static void stress_layout(const char * name, std::vector<std::size_t> ext, int T
     stress((std::string(name) + "/linear").c_str(), fl, mkl, T, seed);
 }
 
+// two fields of the same TYPE but different extents used concurrently (a per-type static cache keyed on "the last field seen"
+// would show here and nowhere else)
+template <std::size_t N, typename LB>
+static void stress_two_fields(const char * name, std::vector<std::size_t> e1, std::vector<std::size_t> e2, int T, uint64_t seed) {
+    auto f1 = filled<N, LB>(e1);
+    auto f2 = filled<N, LB>(e2);
+    auto body = [&](int t, std::vector<uint64_t> & outv, spin_barrier * bar) {
+        typename covfie::field<LB>::view_t v1(f1), v2(f2);
+        rng r(seed * 77 + t);
+        if (bar) bar->wait();
+        uint64_t h = 1469598103934665603ull;
+        for (int k = 0; k < 4000; ++k) {
+            bool first = ((k + t) % 2) == 0;
+            auto & ext = first ? e1 : e2;
+            covfie::array::array<std::size_t, N> c; for (std::size_t d = 0; d < N; ++d) c[d] = r.below(ext[d]);
+            float z = first ? v1.at(c)[0] : v2.at(c)[0];
+            uint32_t b; std::memcpy(&b, &z, 4); h = (h ^ b) * 1099511628211ull;
+        }
+        outv[t] = h;
+    };
+    std::vector<uint64_t> seq(T), par(T);
+    for (int t = 0; t < T; ++t) body(t, seq, nullptr);
+    spin_barrier bar(T);
+    std::vector<std::thread> th;
+    for (int t = 0; t < T; ++t) th.emplace_back([&, t] { body(t, par, &bar); });
+    for (auto & x : th) x.join();
+    ++g_cases;
+    expect_eq(std::string("threads/two-fields/") + name, par, seq, {{"threads", T}});
+}
+
+// a field created from its extents only; the FIRST views are created inside the worker threads, which fill disjoint slabs
+// through their own views and then read everything back (lazy initialisation behind the first view would race here)
+template <typename LB>
+static void stress_fresh_fill(const char * name, std::size_t ex, std::size_t ey, int T) {
+    using RS = cb::strided<In<2>, A1>;
+    for (int round = 0; round < 40; ++round) {
+        covfie::field<RS> f(covfie::make_parameter_pack(typename RS::configuration_t{ex, ey}, typename A1::configuration_t{ex * ey}));
+        spin_barrier bar(T);
+        std::vector<std::thread> th;
+        for (int t = 0; t < T; ++t) th.emplace_back([&, t] {
+            bar.wait();
+            typename covfie::field<RS>::view_t v(f);          // first view of this field is made here
+            for (std::size_t x = (std::size_t)t; x < ex; x += (std::size_t)T) for (std::size_t y = 0; y < ey; ++y) v.at(x, y)[0] = (float)(x * 100 + y);
+        });
+        for (auto & x : th) x.join();
+        typename covfie::field<RS>::view_t v(f);
+        long bad = 0;
+        for (std::size_t x = 0; x < ex; ++x) for (std::size_t y = 0; y < ey; ++y) if (v.at(x, y)[0] != (float)(x * 100 + y)) ++bad;
+        ++g_cases;
+        expect_eq(std::string("threads/fresh-field-parallel-fill/") + name, bad, 0L, {{"threads", T}, {"round", round}});
+    }
+}
+
 int main(int argc, char ** argv) {
     install_terminate();
     std::string mode = argv[1];
@@ -169,6 +222,11 @@ int main(int argc, char ** argv) {
         stress_layout<3, cb::morton<In<3>, A1, true>>("morton3", {5, 4, 6}, T, seed);
         stress_layout<4, cb::strided<In<4>, A1>>("strided4", {6, 5, 4, 3}, T, seed);
         stress_layout<4, cb::morton<In<4>, A1, false>>("mortonp4", {3, 4, 3, 5}, T, seed);
+        stress_two_fields<2, cb::hilbert<In<2>, A1>>("hilbert2", {7, 6}, {13, 11}, T, seed);
+        stress_two_fields<2, cb::morton<In<2>, A1, true>>("morton2", {7, 6}, {13, 11}, T, seed);
+        stress_two_fields<2, cb::strided<In<2>, A1>>("strided2", {7, 6}, {13, 11}, T, seed);
+        stress_two_fields<3, cb::morton<In<3>, A1, false>>("mortonp3", {3, 2, 5}, {9, 4, 2}, T, seed);
+        stress_fresh_fill<void>("strided2", 48, 40, T);
         summary();
     }
     return 0;
